@@ -179,14 +179,15 @@ def shrink_generic(mod: Any, scenario: dict, violation: dict, env: WorkerEnv, se
     return best
 
 
-def write_replay(prop: str, scenario: dict, violation: dict, meta: dict) -> str:
+def write_replay(prop: str, scenario: dict, violation: dict, meta: dict, unshrunk: Optional[dict] = None, unshrunk_violation: Optional[dict] = None) -> str:
     d = VERIF / "replays"
     d.mkdir(exist_ok=True)
     name = f"{prop}-{meta.get('run_seed', 0):016x}.json"
     path = d / name
     with open(path, "w") as f:
         json.dump(
-            {"property": prop, "violation": violation, "scenario": scenario, "meta": meta},
+            {"property": prop, "violation": violation, "scenario": scenario, "meta": meta,
+             **({"scenario_unshrunk": unshrunk, "violation_unshrunk": unshrunk_violation} if unshrunk is not None else {})},
             f,
             indent=1,
             default=core._jdefault,
@@ -221,6 +222,7 @@ def worker_main(a: argparse.Namespace) -> int:
     }
     sigs: set[str] = set()
     nontrivial: set[str] = set()
+    pending_shrink: list = []
     try:
         if hasattr(mod, "worker_setup"):
             mod.worker_setup(env)
@@ -253,9 +255,14 @@ def worker_main(a: argparse.Namespace) -> int:
                 out["samples"].append({"run_index": index, "run_seed": rs, **st["sample"]})
             v = res.get("violation")
             if v:
-                if len(out["violations"]) >= tier.get("max_violations_per_chunk", 2):
+                if len(pending_shrink) >= tier.get("max_violations_per_chunk", 2):
                     out["more_violating_seeds"].append({"index": index, "clause": v["clause"]})
                     continue
+                # shrinking executes many scenario variants; doing it now would let them influence later runs of
+                # this process (module-level state of the library), so it is deferred until every run is done
+                pending_shrink.append((index, rs, scenario, v))
+        for index, rs, scenario, v in pending_shrink:
+            if True:
                 orig_len = len(scenario.get("ops", []))
                 small = scenario
                 if not a.no_shrink:
@@ -287,7 +294,7 @@ def worker_main(a: argparse.Namespace) -> int:
                 }
                 if hasattr(mod, "replay_meta"):
                     meta.update(mod.replay_meta(env))
-                path = write_replay(a.property, small, v2, meta)
+                path = write_replay(a.property, small, v2, meta, unshrunk=scenario if small is not scenario else None, unshrunk_violation=v)
                 feats = mod.features(small, v2) if hasattr(mod, "features") else {}
                 out["violations"].append(
                     {"index": index, "run_seed": rs, "clause": v2["clause"], "step": v2.get("step"),
@@ -349,6 +356,19 @@ def replay_main(a: argparse.Namespace) -> int:
             return first.returncode
         allp = list(meta["process_prefix_indices"])
         full = attempt(",".join(map(str, allp)))
+        if full.returncode != 1 and "scenario_unshrunk" in data:
+            # the minimised history was minimised inside a process whose library state had been touched by other
+            # scenarios; fall back to the history exactly as the run executed it
+            data["scenario"], data["violation"] = data.pop("scenario_unshrunk"), data.pop("violation_unshrunk")
+            data["meta"]["min_ops"] = data["meta"].get("orig_ops")
+            data["meta"]["shrink_discarded"] = True
+            with open(a.replay, "w") as f:
+                json.dump(data, f, indent=1, default=core._jdefault)
+            first = attempt("none")
+            if first.returncode == 1:
+                sys.stdout.write(first.stdout)
+                return 1
+            full = attempt(",".join(map(str, allp)))
         if full.returncode != 1:
             sys.stdout.write(first.stdout)
             return first.returncode
